@@ -16,12 +16,28 @@ import (
 	"os"
 	"strings"
 
+	"github.com/nspcc-dev/neofs-node/pkg/local_object_storage/engine"
 	meta "github.com/nspcc-dev/neofs-node/pkg/local_object_storage/metabase"
+	"github.com/nspcc-dev/neofs-node/pkg/local_object_storage/shard"
 	"github.com/nspcc-dev/neofs-node/verif/lib/ev"
 	"github.com/nspcc-dev/neofs-node/verif/lib/sched"
 	ss "github.com/nspcc-dev/neofs-node/verif/worlds/schedshard"
 	oid "github.com/nspcc-dev/neofs-sdk-go/object/id"
+	"go.uber.org/zap"
 )
+
+// engineBuild attaches the shard to a real StorageEngine: expired objects found by the shard's GC
+// are handled by the engine's own processExpiredObjects (lock check across shards, then removal).
+func engineBuild(opts []shard.Option) (*shard.Shard, func(), error) {
+	e := engine.New(engine.WithLogger(zap.NewNop()))
+	if _, err := e.AddShard(opts...); err != nil {
+		return nil, nil, err
+	}
+	if err := e.Init(); err != nil {
+		return nil, nil, err
+	}
+	return e.VerifC47Shards()[0], func() { e.Close() }, nil
+}
 
 const (
 	R, L1, L2, T1, TL  = 0, 1, 2, 3, 4
@@ -175,6 +191,12 @@ type result struct {
 	TombOK   bool
 	Readable bool
 	Conc     bool
+	// expiry scenario
+	Expiry                    bool
+	Checks                    int
+	R2Deleted                 bool
+	DeletedAfterLockAck       bool
+	StaleAcrossOtherDeletions bool
 }
 
 func historyScenario(depth int, prefix ...int) sched.Scenario {
@@ -186,7 +208,7 @@ func historyScenario(depth int, prefix ...int) sched.Scenario {
 		defer os.RemoveAll(root)
 		res := &result{M: &model{}}
 		s.Result = res
-		w, err := ss.New(s, root, ss.Opts{RmBatch: 10, EngineExpiredCallback: true})
+		w, err := ss.New(s, root, ss.Opts{RmBatch: 10, Build: engineBuild})
 		if err != nil {
 			panic(err)
 		}
@@ -243,6 +265,19 @@ func checkRes(x *sched.Exec) (string, string) {
 	if res.M.Violation != "" {
 		return res.M.Violation, fmt.Sprintf("history %v: %s", res.History, res.M.What)
 	}
+	if res.Expiry {
+		if res.DeletedAfterLockAck {
+			// the verdict "not locked" was used after the lock had been acknowledged
+			if res.StaleAcrossOtherDeletions {
+				return "expiry:locked-object-deleted:lock-acknowledged-before-the-deletion-began:verdict-kept-across-the-removal-of-other-objects", fmt.Sprintf("%+v", res)
+			}
+			return "expiry:locked-object-deleted:lock-acknowledged-before-the-deletion-began:between-the-object's-own-lock-check-and-its-removal", fmt.Sprintf("%+v", res)
+		}
+		if res.LockOK && !res.R2Deleted && !res.Readable {
+			return "expiry:lock-accepted-object-not-deleted-but-not-served", fmt.Sprintf("%+v", res)
+		}
+		return "", ""
+	}
 	if res.Conc && res.LockOK && res.TombOK {
 		return "concurrent:lock-and-tombstone-both-accepted", fmt.Sprintf("%+v", res)
 	}
@@ -261,7 +296,7 @@ func concScenario(pre int) sched.Scenario {
 		defer os.RemoveAll(root)
 		res := &result{M: &model{}, Conc: true, History: []string{"Put(R)", "Put(L)||Put(T)||GCPass"}}
 		s.Result = res
-		w, err := ss.New(s, root, ss.Opts{RmBatch: 10, EngineExpiredCallback: true})
+		w, err := ss.New(s, root, ss.Opts{RmBatch: 10, Build: engineBuild})
 		if err != nil {
 			panic(err)
 		}
@@ -291,13 +326,97 @@ func concScenario(pre int) sched.Scenario {
 		}}
 }
 
+// expiryScenario: two expired objects (R, then R2 in the GC's batch order) are handled by a GC pass
+// while a lock for R2 arrives. If the lock was acknowledged before the removal of R2 began, R2
+// was deleted although a live lock protected it.
+const R2, LR2 = 5, 6
+
+func expiryScenario(pre int) sched.Scenario {
+	body := func(s *sched.S) any {
+		root, err := os.MkdirTemp("/dev/shm", "verif-c07-")
+		if err != nil {
+			panic(err)
+		}
+		defer os.RemoveAll(root)
+		res := &result{M: &model{}, Conc: true, Expiry: true, History: []string{"Put(R,exp=1)", "Put(R2,exp=1)", "Epoch=2", "GCPass||Put(L->R2,exp=4)"}}
+		s.Result = res
+		w, err := ss.New(s, root, ss.Opts{RmBatch: 10, Build: engineBuild})
+		if err != nil {
+			panic(err)
+		}
+		defer w.Close()
+		for _, i := range []int{R, R2} {
+			if err := w.Sh.Put(ss.ObjExp(i, 10, expR), nil); err != nil {
+				panic(err)
+			}
+		}
+		w.Epoch.E = 2
+		w.Sh.VerifSSNewEpoch(2)
+		lockAcked, otherDeletions := false, 0
+		w.OnMeta = func(name string, args []any) {
+			switch name {
+			case "IsLocked":
+				if a, ok := args[0].(oid.Address); ok && a.Object() == ss.OID(R2) {
+					otherDeletions = 0 // a fresh verdict for R2
+					res.Checks++
+				}
+			case "Delete":
+				idl, _ := args[1].([]oid.ID)
+				for _, id := range idl {
+					if id != ss.OID(R2) {
+						otherDeletions++
+						continue
+					}
+					res.R2Deleted = true
+					if lockAcked {
+						res.DeletedAfterLockAck = true
+						res.StaleAcrossOtherDeletions = otherDeletions > 0
+					}
+				}
+			}
+		}
+		n := 0
+		s.Go("locker", false, func() {
+			res.LockOK = w.Sh.Put(ss.Lock(LR2, R2, expL2), nil) == nil
+			lockAcked = res.LockOK
+			n++
+		})
+		s.Go("gc", false, func() { w.Sh.VerifSSGCPass(); n++ })
+		s.Block("join", func() bool { return n == 2 })
+		w.OnMeta = nil
+		_, gerr := w.Sh.Get(ss.Addr(R2), false)
+		_, berr := w.FST.GetBytes(ss.Addr(R2))
+		res.Readable = gerr == nil && berr == nil
+		return res
+	}
+	return sched.Scenario{Name: "GC pass over two expired objects || lock for the second one",
+		Opt:  sched.Options{PreemptBound: pre, FreeBound: pre, MaxSteps: 12000, Setup: func(s *sched.S) { s.TimerFires = 1 }},
+		Body: body, Check: checkRes, Outcome: func(x *sched.Exec) string {
+			res, _ := x.Result.(*result)
+			if res == nil {
+				return "aborted"
+			}
+			return fmt.Sprintf("expiry lock=%v deleted=%v readable=%v", res.LockOK, res.R2Deleted, res.Readable)
+		}}
+}
+
 func main() {
 	r := ev.Start("C07", ev.ModelChecking)
 	depth, pre := 4, 1
-	if r.Thorough() {
-		depth, pre = 5, 2
+	list := func(depth, pre int, tag string) []sched.Scenario {
+		l := []sched.Scenario{concScenario(pre), expiryScenario(pre), historyScenario(depth), historyScenario(depth-1, 0, 1, 2)}
+		for i := range l {
+			l[i].Name += tag
+		}
+		return l
 	}
-	r.Rule(fmt.Sprintf("(A) every history of <=%d operations over %d operations (and every history one shorter after the prefix Put(R),Put(L1),Put(L2)) followed by a GC pass, oracle after each operation; (B) all schedules with <=%d preemptions of Put(lock) || Put(tombstone) || GC pass on a stored object; non-trivial = distinct (stored, live lock, tombstoned, forced, epoch) final model classes", depth, len(alphabet), pre))
-	r.Assume("expired objects are handled as the engine does at shard level: skip locked, delete the others", "a lock that was itself marked as garbage or tombstoned is not counted as live (lenient)")
-	sched.Main(r, []sched.Scenario{concScenario(pre), historyScenario(depth), historyScenario(depth-1, 0, 1, 2)}, 0)
+	scs := list(depth, pre, "")
+	if r.Thorough() {
+		// deeper bounds after the quick ones (the budget is shared per scenario, leftovers roll on)
+		depth, pre = 5, 2
+		scs = append(scs, list(depth, pre, " [deep]")...)
+	}
+	r.Rule(fmt.Sprintf("(A) every history of <=%d operations over %d operations (and every history one shorter after the prefix Put(R),Put(L1),Put(L2)) followed by a GC pass, oracle after each operation; (B) all schedules with <=%d preemptions of Put(lock) || Put(tombstone) || GC pass on a stored object, and of a GC pass over two expired objects || Put(lock for the second); non-trivial = distinct (stored, live lock, tombstoned, forced, epoch) final model classes", depth, len(alphabet), pre))
+	r.Assume("the shard is attached to a real single-shard StorageEngine: expired objects are handled by the engine's own processExpiredObjects", "a lock that was itself marked as garbage or tombstoned is not counted as live (lenient)")
+	sched.Main(r, scs, 0)
 }
